@@ -10,7 +10,7 @@ record("FileObj", fields={"g_path": "Opaque"}, check_attrs=False)
 record("AsyncCliCommand", file=F, bases=["AsyncJob"],
        aliases={"_return_code": "return_code"},
        fields={
-           "_job": "Ref[JadeJob]", "_cli_cmd": "Opaque", "_output": "Opaque", "_pipe": "Opt[Ref[Popen]]", "_is_pending": "bool",
+           "_job": "Ref[JadeJob]", "_cli_cmd": "Str", "_output": "Opaque", "_pipe": "Opt[Ref[Popen]]", "_is_pending": "bool",
            "_start_time": "Opt[real]", "_is_complete": "bool", "_batch_id": "Opaque", "_is_manager_node": "bool",
            "_hpc_job_id": "Opt[Name]", "_stdout_fp": "Opt[Ref[FileObj]]", "_stderr_fp": "Opt[Ref[FileObj]]",
        })
@@ -65,7 +65,7 @@ G_DONE = "self.g_done == (self._is_complete or (not isnone(self._pipe) and not s
 FIN, CAN = "JobCompletionStatus.FINISHED.value", "JobCompletionStatus.CANCELED.value"
 
 contract("AsyncCliCommand.__init__", file=F, qualname="AsyncCliCommand.__init__",
-         params=[("self", "Ref[AsyncCliCommand]"), ("job", "Ref[JadeJob]"), ("cmd", "Opaque"), ("output", "Opaque"), ("batch_id", "Opaque"),
+         params=[("self", "Ref[AsyncCliCommand]"), ("job", "Ref[JadeJob]"), ("cmd", "Str"), ("output", "Opaque"), ("batch_id", "Opaque"),
                  ("is_manager_node", "bool"), ("hpc_job_id", "Opt[Name]")],
          returns="Ref[AsyncCliCommand]",
          ensures=["self._job == job and self._cli_cmd == cmd and self._output == uf('Path/', 'Opaque', output) and self._batch_id == batch_id",
@@ -169,3 +169,52 @@ contract("AsyncCliCommand.cancel", file=F,
          modifies=["self._return_code", "self._is_complete", "self.g_canceled", "self.g_done", "ghost.rows", "ghost.collected", "ghost.collected_failed",
                    "ghost.last_append_dir", "ghost.last_append_batch",
                    "Result.name", "Result.return_code", "Result.status", "Result.exec_time_s", "Result.completion_time", "Result.hpc_job_id"])
+
+# ---- command construction (C19) ------------------------------------------------------------------------------------------
+FG = "jade/extensions/generic_command/generic_command_execution.py"
+define("CMD_NAME", ["j"], "(' --jade-job-name=' + typed(j.name, 'Str'))")
+define("CMD_OUT", ["o"], "(' --jade-runtime-output=' + typed(uf('os.path.dirname/', 'Opaque', o), 'Str'))")
+define("GEN_CMD", ["j", "o"], """(((j.command + CMD_NAME(j)) + CMD_OUT(o)) if (j.append_job_name and j.append_output_dir) else
+    ((j.command + CMD_NAME(j)) if j.append_job_name else ((j.command + CMD_OUT(o)) if j.append_output_dir else j.command)))""")
+record("GenericCommandExecution", file=FG, fields={"_job": "Ref[JadeJob]", "_output": "Opaque"})
+contract("GenericCommandExecution.generate_command", file=FG, strings="text",
+         params=[("job", "Ref[JadeJob]"), ("output", "Opaque"), ("config_file", "Opaque"), ("verbose", "bool", "False")], returns="Str",
+         # the configured command, verbatim, plus only the documented arguments, in this order, when requested
+         ensures=["result == GEN_CMD(job, output)"],
+         modifies=[])
+
+# one AsyncCliCommand per configured job, in configuration order, built from that job
+FR = "jade/jobs/job_runner.py"
+ghost("am_manager", "bool")
+ghost("current_job_id", "Opt[Name]")
+contract("HpcIntf.am_i_manager", kind="assumed", pure=True, params=[("self", "Ref[HpcIntf]")], returns="bool", ensures=["result == ghost.am_manager"],
+         note="SLURM_NODEID == 0 (manager node of the allocation)")
+contract("HpcIntf.get_current_job_id", kind="assumed", pure=True, params=[("self", "Ref[HpcIntf]")], returns="Opt[Name]", ensures=["result == ghost.current_job_id"],
+         note="SLURM_JOB_ID of the allocation this node belongs to")
+contract("JobConfiguration.job_execution_class", kind="assumed", pure=True, params=[("self", "Ref[JobConfiguration]"), ("extension", "Opaque")],
+         returns="Ref[GenericCommandExecution]",
+         note="extension registry lookup: for generic_command jobs the execution class is GenericCommandExecution (other extensions' generate_command are outside the contracts)")
+GJ_ELEM = ("{j}._job == JL()[{i}] and {j}._cli_cmd == GEN_CMD(JL()[{i}], self._jobs_output) and {j}._output == uf('Path/', 'Opaque', self._output) "
+           "and {j}._batch_id == self._batch_id and {j}._is_manager_node == ghost.am_manager and {j}._hpc_job_id == ghost.current_job_id "
+           "and isnone({j}._pipe) and {j}.g_launched == 0 and not {j}.g_canceled and Inv_cli({j}) and fresh({j})")
+from pyvc.spec import CONTRACTS as _C
+_C.pop("JobRunner._generate_jobs", None)
+contract("JobRunner._generate_jobs", file=FR, fresh_result=True,
+         params=[("self", "Ref[JobRunner]"), ("config_file", "Opaque"), ("verbose", "bool")], returns="List[Ref[AsyncCliCommand]]",
+         locals={"jobs": "List[Ref[AsyncCliCommand]]"},
+         defs={"JL": ([], "self._config.g_joblist")},
+         requires=["Inv_cfg(self._config)"],
+         loops={1: {"invariant": ["len(jobs) == _k1", "_it1 == JL()",
+                                  "forall(i, range(_k1), " + GJ_ELEM.format(j="jobs[i]", i="i") + ")",
+                                  "forall(i, range(_k1), forall(m, range(i), jobs[i] != jobs[m]))",
+                                  "unchanged(JadeJob.name) and unchanged(JadeJob.command) and unchanged(JadeJob.blocked_by) and unchanged(JadeJob.append_job_name) "
+                                  "and unchanged(JadeJob.append_output_dir) and unchanged(JadeJob.cancel_on_blocking_job_failure) and unchanged(JobConfiguration.g_joblist)"]}},
+         ensures=["len(result) == len(JL())",
+                  "forall(i, range(len(result)), " + GJ_ELEM.format(j="result[i]", i="i") + ")",
+                  "forall(i, range(len(result)), forall(m, range(i), result[i] != result[m]))",
+                  "ghost.popens == old(ghost.popens) and ghost.rows == old(ghost.rows)"],
+         modifies=["AsyncCliCommand._job", "AsyncCliCommand._cli_cmd", "AsyncCliCommand._output", "AsyncCliCommand._pipe", "AsyncCliCommand._is_pending",
+                   "AsyncCliCommand._start_time", "AsyncJob.return_code", "AsyncCliCommand._is_complete", "AsyncCliCommand._batch_id",
+                   "AsyncCliCommand._is_manager_node", "AsyncCliCommand._hpc_job_id", "AsyncCliCommand._stdout_fp", "AsyncCliCommand._stderr_fp",
+                   "AsyncJob.g_done", "AsyncJob.g_launched", "AsyncJob.g_canceled", "AsyncJob.blocking", "AsyncJob.cancel_on_blocking_job_failure", "AsyncJob.name",
+                   "AsyncJob.g_is_batch"])
